@@ -103,6 +103,11 @@ func bombBytes(spec string) []byte {
 		s = strings.Repeat("m1{", k)
 	case "map-closed":
 		s = strings.Repeat("m1{1", k) + "n" + strings.Repeat("}", k)
+	case "classdefs-open", "svc-classdefs-open", "cli-classdefs-open": // class definitions in front of a value that never comes
+		if k >= abyss {
+			k /= 3 // a level of this recursion took about a kilobyte of stack: two million levels are the abyss here
+		}
+		s = map[string]string{"classdefs-open": "", "svc-classdefs-open": "C", "cli-classdefs-open": "R"}[kind] + strings.Repeat(`c""{}`, k)
 	case "wide-list-open": // every level announces ten million elements
 		s = strings.Repeat("a9999999{", k)
 	case "wide-map-open":
@@ -768,6 +773,10 @@ func build(thorough bool) spaces {
 			addRisky("io", riskyIn{[]byte(fmt.Sprintf(f, e)), "exponent=" + e}, readerCells)
 		}
 	}
+	for _, in := range []string{`s24"1e646456992+1e-646456992"`, `s8"1e999999"`, `s10"1e99999999"`, `a2{s8"1e999999"r1;}`, `s12"1/1e99999999"`, `s11"1e9999+1e99i"`} {
+		nExp++
+		addRisky("io", riskyIn{[]byte(in), "exponent-in-text"}, readerCells)
+	}
 	sp.info["io_exponent_bombs"] = nExp
 
 	// ref domain: back-references converted into destinations of another type; all edits and all huge values
@@ -837,8 +846,13 @@ func build(thorough bool) spaces {
 		bomb("svc", "svc-wide-list-open", k)
 		bomb("cli", "cli-wide-list-open", k)
 	}
-	for _, kind := range []string{"list-open", "map-open"} {
+	for _, kind := range []string{"list-open", "map-open", "classdefs-open"} {
 		bomb("io", kind, abyss)
+	}
+	bomb("svc", "svc-classdefs-open", abyss)
+	bomb("cli", "cli-classdefs-open", abyss)
+	for _, k := range []int{100, 10000} {
+		bomb("io", "classdefs-open", k)
 	}
 	bomb("svc", "svc-list-open", abyss)
 	bomb("cli", "cli-list-open", abyss)
